@@ -146,7 +146,9 @@ CLAIMED = {
              "(aliases stay aliases).",
         note="Assumed: Python dict as a finite map keyed by hash/== with items() yielding each pair once; deepcopy returns a fresh equal "
              "object; the induction over operation histories from the per-operation contracts is the standard ADT argument (stated); "
-             "At/Index on dictionaries not under contract.",
+             "At/Index on dictionaries not under contract. Distinctness of keys of different kinds with the same text is NOT covered by "
+             "the proof (it is the assumed hash/== contract of the key classes): a bounded battery (key-kinds, labelled) looks at it and "
+             "reports a recorded known finding - a character key collides with a string / symbol key of the same text.",
         ref="DESIGN.md section 4 C10"),
     'C11': dict(
         text="Strings: the real writer's loop proves kg_write_string(s) = '\"' ++ enc(s) ++ '\"' and the real reader's loop proves "
